@@ -24,10 +24,10 @@ BUDGET = {"quick": {"runs": 24000, "wall": 80}, "thorough": {"runs": 400000, "wa
 SHRINK_LISTS = ("ops",)
 PROBES = {"C20": ["stop:budget", "stop:patience", "stop:reject", "stop:tol", "step-after-stop",
                   "reset-after-stop", "reset-with-stale-patience", "exact-threshold", "batched-mixed",
-                  "driver:optimize", "driver:optimize-again", "driver:optimize-ended-by-exception", "driver:mpc", "driver:icp", "driver:second-call", "first-step-inf", "verbose", "loss==tol"]}
+                  "driver:optimize", "driver:optimize-again", "driver:optimize-ended-by-exception", "driver:mpc", "driver:icp", "driver:second-call", "first-step-inf", "verbose", "loss==tol", "tol-crossed-slowly", "mpc:default-stepper"]}
 
 DYADIC = (0.5, 0.25, 1.0, 0.125, 2.0)
-KINDS = ("dec_big", "dec_small", "equal", "increase", "exact_thr", "below_tol", "rejected")
+KINDS = ("dec_big", "dec_small", "equal", "increase", "exact_thr", "below_tol", "rejected", "tol_above", "tol_cross")
 
 
 class StepCap(BaseException):
@@ -58,11 +58,12 @@ def generate(seed, tier, prop="C20"):
         # swarm: per-run weights of the event alphabet
         w = {k: ro.choice([0, 1, 1, 2, 4]) for k in KINDS}
         if mode == "plateau":
-            w["below_tol"] = 0
+            w["below_tol"] = 0; w["tol_above"] = 0; w["tol_cross"] = 0
         else:
             w["rejected"] = 0
             if tol == 0.0:
-                w["below_tol"] = 0
+                w["below_tol"] = 0; w["tol_above"] = 0; w["tol_cross"] = 0
+            w["tol_above"] = min(w["tol_above"], 1); w["tol_cross"] = min(w["tol_cross"], 2)
         if dec not in DYADIC:
             w["exact_thr"] = 0
         w["rejected"] = min(w["rejected"], 1)
@@ -330,6 +331,11 @@ def _exec_bason(plan, out, tr):
                 v = prev / (1 + d * 0.6 * f)
             elif kind == "increase":
                 v = prev * (1.05 + f)
+            elif kind == "tol_above" and tol > 0:
+                v = tol * (1.01 + 0.05 * f)      # just above the tolerance
+            elif kind == "tol_cross" and tol > 0:
+                v = tol * (0.999 - 0.03 * f)     # just below it: a crossing with a tiny relative decrease
+                out.probe("tol-crossed-slowly")
             elif kind == "below_tol" and tol > 0 and o["j"] % 5 == 0:
                 v = tol                          # exactly at the tolerance: not below it
                 out.probe("loss==tol")
@@ -337,7 +343,7 @@ def _exec_bason(plan, out, tr):
                 v = tol * (0.01 + 0.8 * f)
             else:
                 v = prev
-            if kind != "below_tol" and v < 20 * tol:
+            if kind not in ("below_tol", "tol_above", "tol_cross") and v < 20 * tol:
                 v = base * (1 + f)          # keep away from tol unless asked for
             new.append(v)
         vo = _mk(rep, new)
@@ -469,6 +475,39 @@ def _drive_mpc(plan, out, tr):
                             (o["id"], n, steps), o["id"], "mpc:budget")
         # MPC documents 'n-1 loops, 1 loop with gradient': the stepper inside runs with budget steps-1 (at least one loop)
         _ref_over_history(stepper, c, max(steps - 1, 1) if steps - 1 >= 1 else 1, out, "MPC.forward call #%d" % o["id"], o["id"], "mpc:loop")
+    out.nontrivial = True
+
+
+def _drive_mpc_default(plan, out, tr):
+    """MPC objects constructed without a stepper: each owns the documented default ReduceToBason(steps=10) (minus
+    MPC's one reserved solve).  Observed through a forward hook on the inner LQR: every solve's cost."""
+    from .lqrsim import SmoothNLS
+    c, s = plan["config"], plan["seed"]
+    ns, nc, T = c["n_state"], c["n_ctrl"], c["T"]
+    dt = torch.float64
+    W1 = rng.randn(s, ("W1",), (ns, ns), dt, 0.6); W2 = rng.randn(s, ("W2",), (ns, ns), dt, 0.6); W3 = rng.randn(s, ("W3",), (ns, nc), dt)
+    M = rng.randn(s, ("Q",), (ns + nc, ns + nc), dt)
+    Q = (M @ M.T + torch.eye(ns + nc, dtype=dt)).repeat(1, T, 1, 1)
+    p = rng.randn(s, ("p",), (1, T, ns + nc), dt)
+    cfg = {"patience": 5, "decreasing": 1e-3, "tol": 1e-5}
+    for o in plan["ops"] + [{"id": 90}, {"id": 91}]:
+        sysm = SmoothNLS(W1, W2, W3, 1.0, 0.0)
+        mpc = pp.module.MPC(sysm, Q, p, T)
+        costs = []
+        h = mpc.lqr.register_forward_hook(lambda m_, i_, o_: costs.append(o_[2].detach().clone()))
+        x0 = rng.randn(s, ("x0", o["id"]), (1, ns), dt)
+        mpc(1, x0)
+        h.remove()
+        loops = costs[:-1]                    # the last solve is the reserved one after the loop
+        class _H: pass
+        st = _H(); st.history = loops; st.calls_this = len(loops)
+        out.sim_time += len(loops); out.ops += 1
+        out.probe("mpc:default-stepper")
+        tr.ev("mpc-default", o["id"], len(loops), costs[-1])
+        if len(loops) > 10:
+            raise Violation("C20.budget", "default-constructed MPC #%d made %d controller steps, default budget steps=10" %
+                            (o["id"], len(loops)), o["id"], "mpc-default:budget")
+        _ref_over_history(st, cfg, 9, out, "default-constructed MPC (object #%d in this process)" % o["id"], o["id"], "mpc-default:loop")
     out.nontrivial = True
 
 
@@ -647,7 +686,10 @@ def execute(plan, prop, out, tr):
     elif mode == "bason":
         _exec_bason(plan, out, tr)
     elif mode == "mpc":
-        _drive_mpc(plan, out, tr)
+        if rng.H(plan["seed"], "mpc-default") % 4 == 0:
+            _drive_mpc_default(plan, out, tr)
+        else:
+            _drive_mpc(plan, out, tr)
     elif mode == "icp":
         _drive_icp(plan, out, tr)
     else:
